@@ -90,3 +90,5 @@ package goja
 //@ iface Value.ToNumber
 //@   props C05
 //@   ensures specIsNumber(self) ==> result == self || specIsNaNValue(self) && specIsNaNValue(result) [number-identity]
+//@   ensures specIsNumber(result) [returns-number]
+//@   assigns nothing if specPrimitiveNumeric(self)
